@@ -167,10 +167,10 @@ func main() {
 		emit(p, q, "IPre", fqlrun.RunProgram(prog, params, -1, true))
 		for k := 0; k < ncalls && k < maxK; k++ {
 			emit(p, q, fmt.Sprintf("(ICancel %d%%N)", k), fqlrun.RunProgramInj(prog, params, k, false, -1, 0))
-			kind := (k + i) % 4
+			kind := (k + i) % 5
 			emit(p, q, fmt.Sprintf("(IFail %d%%N %d%%N)", k, kind), fqlrun.RunProgramInj(prog, params, -1, false, k, kind))
 			if tier == "thorough" {
-				for kk := 0; kk < 4; kk++ {
+				for kk := 0; kk < 5; kk++ {
 					if kk != kind {
 						emit(p, q, fmt.Sprintf("(IFail %d%%N %d%%N)", k, kk), fqlrun.RunProgramInj(prog, params, -1, false, k, kk))
 					}
